@@ -62,7 +62,16 @@ func (b *builder) ring() []vkit.P2 {
 	}
 	anchor := vkit.MkP(minx-S*float64(rapid.IntRange(1, 3).Draw(b.t, "ax")), float64(rapid.IntRange(-15, 15).Draw(b.t, "ay"))*S)
 	pos := rapid.IntRange(0, n).Draw(b.t, "apos")
-	r := append(append(append([]vkit.P2{}, p[:pos]...), anchor), p[pos:]...)
+	ins := []vkit.P2{anchor}
+	if rapid.IntRange(0, 3).Draw(b.t, "leftedge") == 2 {
+		// a vertical left edge (as every axis-parallel rectangle has): two left-most vertices with the same x
+		second := vkit.MkP(float64(anchor[0]), float64(anchor[1])+S*float64(rapid.IntRange(1, 4).Draw(b.t, "ay2")))
+		ins = []vkit.P2{anchor, second}
+		if rapid.Bool().Draw(b.t, "leftedgeorder") {
+			ins = []vkit.P2{second, anchor}
+		}
+	}
+	r := append(append(append([]vkit.P2{}, p[:pos]...), ins...), p[pos:]...)
 	return append(r, r[0])
 }
 
@@ -165,7 +174,8 @@ func (b *builder) jitPts(p []vkit.P2) []vkit.P2 {
 	return out
 }
 
-// jitRing perturbs a closed ring (closing vertex stays identical to the first) and rotates its start vertex.
+// jitRing perturbs a closed ring (the closing vertex stays identical to the first, or - a quarter of the time - is
+// perturbed on its own) and rotates its start vertex.
 func (b *builder) jitRing(r []vkit.P2, nontriv *bool) []vkit.P2 {
 	n := len(r) - 1
 	open := b.jitPts(r[:n])
@@ -174,6 +184,11 @@ func (b *builder) jitRing(r []vkit.P2, nontriv *bool) []vkit.P2 {
 		*nontriv = true
 	}
 	out := append(append([]vkit.P2{}, open[rot:]...), open[:rot]...)
+	if rapid.IntRange(0, 3).Draw(b.t, "closingjit") == 1 {
+		// the closing vertex is a coordinate pair like any other: perturbed on its own, not copied from the first
+		*nontriv = true
+		return append(out, b.jit(r[(rot)%n]))
+	}
 	return append(out, out[0])
 }
 
